@@ -166,6 +166,25 @@ pub fn run(mut run: Run) -> i32 {
             check_polygon(acc, idx, s, &[h], "1hole");
         });
     }
+    // images under integer affine maps: validity is an affine invariant, but the oracle is simply recomputed on the image (oblique, nearly parallel
+    // edges; crossing points that are not representable; coordinates up to 1e6)
+    for (fi, f) in imaps().into_iter().enumerate() {
+        let k = 5usize;
+        let n = 9usize.pow(k as u32);
+        let g3 = g3.clone();
+        let fstride = if quick { 3 } else { 1 };
+        run.stage(&format!("shells-free5-affine-image {}", f.name), n / fstride, move |idx, acc| {
+            let free: Vec<IP> = nth_sequence(9, k, idx * fstride + fi % fstride).iter().map(|&i| f.ap(g3[i])).collect();
+            check_polygon(acc, idx, &free, &[], "shell-affine-image");
+        });
+        let (g4, shells) = (g4.clone(), shells.clone());
+        let hstride = if quick { 4 } else { 1 };
+        run.stage(&format!("hole-free3-affine-image {}", f.name), shells.len() * 4096 / hstride, move |idx, acc| {
+            let s: Vec<IP> = shells[idx % shells.len()].iter().map(|&p| f.ap(p)).collect();
+            let h: Vec<IP> = nth_sequence(16, 3, (idx / shells.len()) * hstride + fi % hstride).iter().map(|&i| f.ap(g4[i])).collect();
+            check_polygon(acc, idx, &s, &[h], "1hole-affine-image");
+        });
+    }
     // concave shell (U shape on the 6x6 lattice): holes whose vertices are all strictly inside but whose edges cross the slot
     let ushape: Vec<IP> = vec![(0, 0), (5, 0), (5, 5), (3, 5), (3, 2), (2, 2), (2, 5), (0, 5)];
     let g6 = grid(6);
